@@ -278,7 +278,10 @@ def expand_id_lists(toks):
                     k += 1
                 typ = toks[j + 1:k]
                 sep = toks[k] if k < n and toks[k] == ('op', ';') else ('op', ';')
+                is_var = bool(out) and out[-1] == ('id', 'var')
                 for m, nm in enumerate(names):
+                    if is_var and m > 0:
+                        out.append(('id', 'var'))          # VAR a, b : T  declares both as VAR
                     out += [nm, ('op', ':')] + typ
                     if m < len(names) - 1:
                         out.append(sep)
